@@ -19,4 +19,15 @@ print(json.dumps({"change":id,"property":prop,"exit":int(rc[-1]) if rc else None
 PY
   tail -1 $OUT
 done
-mv $OUT seeded/results.jsonl
+python3 - <<'PY'
+import json, os
+res = {}
+for f in ("seeded/results.jsonl", "seeded/results.jsonl.tmp"):
+    if os.path.exists(f):
+        for l in open(f):
+            d = json.loads(l)
+            if d.get("exit") is not None:
+                res[d["change"]] = d
+open("seeded/results.jsonl", "w").write("".join(json.dumps(res[k]) + "\n" for k in sorted(res)))
+os.remove("seeded/results.jsonl.tmp")
+PY
